@@ -144,18 +144,29 @@ def simulate(cfg: CFG, env: Callable[[ast.expr], Optional[bool]], start: Optiona
             elif isinstance(node.ast, ast.ExceptHandler) and node.ast.name:
                 stored = {node.ast.name}
             if stored:
-                seen = {k: v for k, v in seen.items() if not (isinstance(k, tuple) and k[0] == "none" and k[1] in stored)}
+                seen = {k: v for k, v in seen.items() if not (isinstance(k, tuple) and k[0] in ("none", "flag") and k[1] in stored)}
                 st_ = node.ast
                 if isinstance(st_, ast.Assign) and len(st_.targets) == 1 and isinstance(st_.targets[0], ast.Name) and isinstance(st_.value, ast.Constant) and st_.value.value is None:
                     seen[("none", st_.targets[0].id)] = True
+                # a flag set to True / False on this path (must_abort = True ... finally: if must_abort and ..)
+                if isinstance(st_, ast.Assign) and len(st_.targets) == 1 and isinstance(st_.targets[0], ast.Name) and isinstance(st_.value, ast.Constant) and isinstance(st_.value.value, bool):
+                    seen[("flag", st_.targets[0].id)] = st_.value.value
         elif node.kind in ("iter",) and node.ast is not None:
             stored = {n.id for n in ast.walk(getattr(node.ast, "target", node.ast)) if isinstance(n, ast.Name) and isinstance(n.ctx, ast.Store)}
             if stored:
-                seen = {k: v for k, v in seen.items() if not (isinstance(k, tuple) and k[0] == "none" and k[1] in stored)}
+                seen = {k: v for k, v in seen.items() if not (isinstance(k, tuple) and k[0] in ("none", "flag") and k[1] in stored)}
         if node.kind == "test":
             nones = {k[1] for k in seen if isinstance(k, tuple) and k[0] == "none"}
+            flags = {k[1]: v for k, v in seen.items() if isinstance(k, tuple) and k[0] == "flag"}
 
-            def env_n(expr: ast.expr, _env=env, _nones=nones) -> Optional[bool]:
+            def env_n(expr: ast.expr, _env=env, _nones=nones, _flags=flags) -> Optional[bool]:
+                if isinstance(expr, ast.Name) and expr.id in _flags:
+                    return _flags[expr.id]
+                if isinstance(expr, ast.Compare) and len(expr.ops) == 1 and isinstance(expr.left, ast.Name) and expr.left.id in _flags and isinstance(expr.comparators[0], ast.Constant) and isinstance(expr.comparators[0].value, bool):
+                    if isinstance(expr.ops[0], (ast.Is, ast.Eq)):
+                        return _flags[expr.left.id] is expr.comparators[0].value
+                    if isinstance(expr.ops[0], (ast.IsNot, ast.NotEq)):
+                        return _flags[expr.left.id] is not expr.comparators[0].value
                 if _nones and isinstance(expr, ast.Compare) and len(expr.ops) == 1 and isinstance(expr.left, ast.Name) and expr.left.id in _nones and isinstance(expr.comparators[0], ast.Constant) and expr.comparators[0].value is None:
                     if isinstance(expr.ops[0], (ast.Is, ast.Eq)):
                         return True
@@ -164,7 +175,7 @@ def simulate(cfg: CFG, env: Callable[[ast.expr], Optional[bool]], start: Optiona
                 return _env(expr)
 
             val = eval3(node.ast, env_n)  # type: ignore[arg-type]
-            if val is None and expand is not None and not nones:
+            if val is None and expand is not None and not nones and not flags:
                 val = eval3(expand(node.ast), env_n)  # type: ignore[arg-type]
             for nxt, label in succ:
                 if val is None or label == val:
@@ -300,6 +311,7 @@ def run_int_cfg(
     range_iters: Dict[Any, Any] = {}
     node = cfg.entry
     pending_exc: Optional[ast.expr] = None
+    returning = False
 
     def atoms(expr: ast.AST):
         if isinstance(expr, ast.Name) and expr.id in state:
@@ -454,7 +466,12 @@ def run_int_cfg(
         if not succ:
             run.end = "stuck"
             return run
-        node = cfg.nodes[succ[0][0]]
+        if isinstance(stmt, ast.Return):
+            returning = True
+        # the end of a `finally` block has a "return" edge (a pending return leaves the function) next to its normal
+        # continuation: which one is taken depends on how the block was entered
+        pick = [x for x in succ if (x[1] == "return") == returning] or succ
+        node = cfg.nodes[pick[0][0]]
     run.end = "budget"
     return run
 
